@@ -107,7 +107,7 @@ pub fn run(run: &Run) {
     run.sample("ids-enumerated", || json!({"id": (1u64 << 60) - 1}));
     prop_search(
         run,
-        Search { check: "ids", cases: run.tier.pick(1_000_000, 60_000_000), workers, max_shrink_iters: 2000 },
+        Search { check: "ids", cases: run.tier.pick(6_000_000, 100_000_000), workers, max_shrink_iters: 2000 },
         crate::gen::varint_value,
         |id| match guarded(*id) {
             Ok(()) => Outcome::pass(nontrivial(*id)),
